@@ -61,6 +61,9 @@
 import PyndlProofs.WH
 import PyndlProofs.WHOneHot
 import PyndlProofs.WHPy
+import PyndlProofs.FileEvents
+
+set_option linter.unusedVariables false
 
 namespace Pyndl.C14
 open Pyndl List
@@ -177,8 +180,13 @@ def exTable' : VecTable ℤ :=
 
 def exSigma : String → Nat := fun s => if s = "a" then 3 else if s = "b" then 2 else 0
 
-/-- events with several cues, a repeated cue, several outcomes, an empty outcome list -/
-def exEvents : List (Event String String) := [⟨["a", "b"], ["x"]⟩, ⟨["a", "a"], ["y", "x"]⟩, ⟨["b"], []⟩]
+/-- events with several cues, a repeated cue, several outcomes — every event with
+    ≥ 1 cue and ≥ 1 outcome, as an event file holds them (`FileEvents`; the list
+    used to end in `⟨["b"], []⟩`, which neither `wh.wh` nor `ndl.ndl` can receive) -/
+def exEvents : List (Event String String) := [⟨["a", "b"], ["x"]⟩, ⟨["a", "a"], ["y", "x"]⟩, ⟨["b"], ["y"]⟩]
+
+/-- (definitional — example data, not a property theorem) -/
+theorem exEvents_file : FileEvents exEvents := by decide
 
 /-- `OneHotTable` is satisfiable: the shuffled table (and its permuted copy) -/
 theorem onehot_table_example : OneHotTable exTable exSigma ∧ OneHotTable exTable' exSigma := by
@@ -309,9 +317,12 @@ theorem policy_makes_outcomes_unique (p : DupPolicy) (hk : p ≠ .keep)
     `ndl_call_eq_spec`).  Preconditions: `hne` the event file has at least ONE
     event — on a file with zero events the real `ndl.ndl` raises `IOError` (it
     is the CALL `ndlCall` that is compared) while `wh.wh` returns, so the two do
-    NOT agree there; `hcfg : CfgOK` = `2 ≤ events_per_temporary_file < 2³²`,
-    `1 ≤ n_outcomes_per_job`, OpenMP: `n_outcomes + n_outcomes_per_job < 2³²`
-    of the `ndl.ndl` call and `hfit` the 32-bit
+    NOT agree there; `hfile`: the events are what an event file can hold (≥ 1 cue
+    and ≥ 1 outcome each — both functions read a path, where an empty field comes
+    back as the name `""`; unused by the proof, it delimits where the models are
+    the code); `hcfg : CfgOK` = `2 ≤ events_per_temporary_file < 2³²`,
+    `1 ≤ n_outcomes_per_job`, OpenMP: `n_outcomes_per_job < 2³²`, no wrap-around
+    of the part bounds, of the `ndl.ndl` call and `hfit` the 32-bit
     limits of its event files (it raises outside); `hc : 1 ≤ n_outcomes_per_job`
     of the `wh.wh` call; `hp` the duplicate policy accepts the events (else both
     raise `ValueError`); the cues of the events have rows in the table (`hS`,
@@ -323,7 +334,7 @@ theorem policy_makes_outcomes_unique (p : DupPolicy) (hk : p ≠ .keep)
     methods. -/
 theorem wh_r2b_onehot_eq_ndl (cfg : NdlCfg) (eta β₁ β₂ lam : R)
     (ct : VecTable R) (σ : String → Nat) (chunk : Nat) (hc : 1 ≤ chunk)
-    (es es' : List (Event String String)) (hne : es ≠ [])
+    (es es' : List (Event String String)) (hne : es ≠ []) (hfile : FileEvents es)
     (hcfg : CfgOK cfg (countNames es).2.length)
     (hp : applyPolicyAll cfg.policy es = some es') (hfit : Fits32 es)
     (hoh : OneHotTable ct σ) (S : String → Prop) (hSn : ∀ c, S c → c ∈ ct.names)
@@ -336,14 +347,14 @@ theorem wh_r2b_onehot_eq_ndl (cfg : NdlCfg) (eta β₁ β₂ lam : R)
     eta β₁ β₂ lam ct σ chunk hc es es' hne hcfg hp hfit hoh S hSn hinj hS
 
 /-- **binary → real, end to end**: as before (in particular `hne`: at least one
-    event, else `ndl.ndl` raises and `wh.wh` does not) with the outcome table; `hu` no
+    event, else `ndl.ndl` raises and `wh.wh` does not; `hfile`) with the outcome table; `hu` no
     outcome repeated within a policy-processed event
     (`policy_makes_outcomes_unique`).  `wh.wh`'s matrix at (label at position
     `τ o`, c) equals `ndl.ndl`'s (α = 1, β₁ = β₂ = η, λ = 1) at (o, c), for every
     `o ∈ T` and EVERY cue name `c`; unused outcome dimensions read 0. -/
 theorem wh_b2r_onehot_eq_ndl (cfg : NdlCfg) (eta β₁ β₂ lam : R)
     (ot : VecTable R) (τ : String → Nat) (chunk : Nat) (hc : 1 ≤ chunk)
-    (es es' : List (Event String String)) (hne : es ≠ [])
+    (es es' : List (Event String String)) (hne : es ≠ []) (hfile : FileEvents es)
     (hcfg : CfgOK cfg (countNames es).2.length)
     (hp : applyPolicyAll cfg.policy es = some es') (hfit : Fits32 es)
     (hoh : OneHotTable ot τ) (T : String → Prop) (hTn : ∀ o, T o → o ∈ ot.names)
@@ -356,12 +367,12 @@ theorem wh_b2r_onehot_eq_ndl (cfg : NdlCfg) (eta β₁ β₂ lam : R)
   whModel_b2r_onehot_eq_ndl Generated.pyMagic Generated.pyVersion (by decide) (by decide) cfg
     eta β₁ β₂ lam ot τ chunk hc es es' hne hcfg hp hfit hoh T hTn hinj hT hu
 
-/-- **real → real, end to end** (`hne`, `hcfg` as in `wh_r2b_onehot_eq_ndl`):
+/-- **real → real, end to end** (`hne`, `hfile`, `hcfg` as in `wh_r2b_onehot_eq_ndl`):
     both tables one-hot; `wh.wh`'s matrix at (label
     at position `τ o`, label at position `σ c`) equals `ndl.ndl`'s at (o, c). -/
 theorem wh_r2r_onehot_eq_ndl (cfg : NdlCfg) (eta β₁ β₂ lam : R)
     (ct ot : VecTable R) (σ τ : String → Nat) (chunk : Nat) (hc : 1 ≤ chunk)
-    (es es' : List (Event String String)) (hne : es ≠ [])
+    (es es' : List (Event String String)) (hne : es ≠ []) (hfile : FileEvents es)
     (hcfg : CfgOK cfg (countNames es).2.length)
     (hp : applyPolicyAll cfg.policy es = some es') (hfit : Fits32 es)
     (hohc : OneHotTable ct σ) (hoho : OneHotTable ot τ)
@@ -432,12 +443,14 @@ example : SameVectors exTable exTable' := by
   exact onehot_same_vectors exTable exTable' exSigma onehot_table_example.1 onehot_table_example.2 rfl
     (fun c => ⟨h1 c, h2 c⟩)
 
-/-- the preconditions of `whR2BSpec_onehot_eq_rw_table` hold for the example:
+/-- (definitional — example data, not a property theorem) the preconditions of
+    `whR2BSpec_onehot_eq_rw_table` hold for the example:
     `exSigma` is injective on the row labels and the event cues have rows -/
 theorem exSigma_inj : ∀ a b, a ∈ exTable.names → b ∈ exTable.names → exSigma a = exSigma b → a = b := by
   have h : ∀ a ∈ exTable.names, ∀ b ∈ exTable.names, exSigma a = exSigma b → a = b := by decide +kernel
   exact fun a b ha hb => h a ha b hb
 
+/-- (definitional — example data, not a property theorem) -/
 theorem exEvents_in_table : ∀ e ∈ exEvents, ∀ c ∈ e.cues, c ∈ exTable.names := by decide +kernel
 
 /-- … and the values are not trivial (β₁ = 2, β₂ = 3, λ = 5): outcome `x` has
@@ -458,13 +471,13 @@ example :
 example :
     (match whModel .r2b .keep (1 : ℤ) 2 3 5 (some exTable) none 1 none exEvents with
      | .ok w => some (w.outcomes, w.cues, w.vals) | .error _ => none)
-      = some (["x", "y"], ["d0", "d1", "d2", "d3"], #[0, 0, -20, -50,  0, 0, 0, 20]) ∧
+      = some (["x", "y"], ["d0", "d1", "d2", "d3"], #[0, 0, -20, -50,  0, 0, 10, 20]) ∧
     (match whModel .r2b .keep (1 : ℤ) 2 3 5 (some exTable') none 1 none exEvents with
      | .ok w => some (w.outcomes, w.cues, w.vals) | .error _ => none)
-      = some (["x", "y"], ["d0", "d1", "d2", "d3"], #[0, 0, -20, -50,  0, 0, 0, 20]) ∧
+      = some (["x", "y"], ["d0", "d1", "d2", "d3"], #[0, 0, -20, -50,  0, 0, 10, 20]) ∧
     (match ndlModel Generated.pyMagic Generated.pyVersion ⟨.keep, .openmp, 1, 2⟩ (1 : ℤ) 2 3 5 none exEvents with
      | .ok (w, k) => some (w.outcomes, w.cues, w.vals, k) | .error _ => none)
-      = some (["x", "y"], ["a", "b"], #[-50, -20,  20, 0], 3) :=
+      = some (["x", "y"], ["a", "b"], #[-50, -20,  20, 10], 3) :=
   ⟨by decide +kernel, by decide +kernel, by decide +kernel⟩
 
 /-- the preconditions of the end-to-end statement `wh_r2b_onehot_eq_ndl` are
@@ -477,7 +490,7 @@ example :
         w.get o dl = wn.get o c) ∧
       (∀ o dl, (∀ e ∈ exEvents, ∀ c ∈ e.cues, exSigma c ≠ exTable.dims.idxOf dl) → w.get o dl = 0) :=
   wh_r2b_onehot_eq_ndl ⟨.keep, .openmp, 1, 2⟩ 1 2 3 5 exTable exSigma 1 (by decide)
-    exEvents exEvents (by decide) (by decide +kernel) (by decide +kernel)
+    exEvents exEvents (by decide) exEvents_file (by decide +kernel) (by decide +kernel)
     ⟨by decide +kernel, by decide +kernel, by decide +kernel, by decide +kernel⟩
     onehot_table_example.1 (· ∈ exTable.names) (fun _ h => h) exSigma_inj exEvents_in_table
 
@@ -487,10 +500,12 @@ def exTau : String → Nat := fun s => if s = "x" then 2 else 0
 
 example : OneHotTable exOutTable exTau := by unfold OneHotTable; decide +kernel
 
+/-- (definitional — example data, not a property theorem) -/
 theorem exTau_inj : ∀ a b, a ∈ exOutTable.names → b ∈ exOutTable.names → exTau a = exTau b → a = b := by
   have h : ∀ a ∈ exOutTable.names, ∀ b ∈ exOutTable.names, exTau a = exTau b → a = b := by decide +kernel
   exact fun a b ha hb => h a ha b hb
 
+/-- (definitional — example data, not a property theorem) -/
 theorem exEvents_out_in_table : ∀ e ∈ exEvents, ∀ o ∈ e.outcomes, o ∈ exOutTable.names := by decide +kernel
 
 /-- the preconditions of `wh_b2r_onehot_eq_ndl` are jointly satisfiable: the
@@ -503,7 +518,7 @@ example :
         w.get dl c = wn.get o c) ∧
       (∀ dl c, (∀ e ∈ exEvents, ∀ o ∈ e.outcomes, exTau o ≠ exOutTable.dims.idxOf dl) → w.get dl c = 0) :=
   wh_b2r_onehot_eq_ndl ⟨.keep, .threading, 2, 2⟩ 2 2 3 5 exOutTable exTau 1 (by decide)
-    exEvents exEvents (by decide) (by decide +kernel) (by decide +kernel)
+    exEvents exEvents (by decide) exEvents_file (by decide +kernel) (by decide +kernel)
     ⟨by decide +kernel, by decide +kernel, by decide +kernel, by decide +kernel⟩
     (by unfold OneHotTable; decide +kernel) (· ∈ exOutTable.names) (fun _ h => h) exTau_inj
     exEvents_out_in_table (by decide +kernel)
@@ -517,7 +532,7 @@ example :
         exOutTable.dims.idxOf dlo = exTau o → dlc ∈ exTable.dims → exTable.dims.idxOf dlc = exSigma c →
         w.get dlo dlc = wn.get o c) :=
   wh_r2r_onehot_eq_ndl ⟨.keep, .openmp, 1, 2⟩ 2 2 3 5 exTable exOutTable exSigma exTau 1 (by decide)
-    exEvents exEvents (by decide) (by decide +kernel) (by decide +kernel)
+    exEvents exEvents (by decide) exEvents_file (by decide +kernel) (by decide +kernel)
     ⟨by decide +kernel, by decide +kernel, by decide +kernel, by decide +kernel⟩
     onehot_table_example.1 (by unfold OneHotTable; decide +kernel)
     (· ∈ exTable.names) (· ∈ exOutTable.names) (fun _ h => h) (fun _ h => h) exSigma_inj exTau_inj
@@ -577,7 +592,7 @@ theorem single_outcomes_nodup (es' : List (Event String String)) (hs : ∀ e ∈
 
 /-- **`wh.wh(method='numpy')` with one-hot tables = `ndl.ndl`** (α = 1,
     β₁ = β₂ = η, λ = 1), end to end, both read through their labels.
-    Hypotheses of `wh_r2r_onehot_eq_ndl` (at least one event; `hcfg`, `hfit` the
+    Hypotheses of `wh_r2r_onehot_eq_ndl` (at least one event; `hfile`; `hcfg`, `hfit` the
     limits of the `ndl.ndl` call; the policy accepts the events; both tables
     one-hot with dimension maps injective on the occurring names, names have
     rows) with `hs` — every policy-processed event has exactly one cue and one
@@ -586,7 +601,7 @@ theorem single_outcomes_nodup (es' : List (Event String String)) (hs : ∀ e ∈
     `wh_numpy_eq_openmp` with `wh_r2r_onehot_eq_ndl`. -/
 theorem wh_numpy_onehot_eq_ndl (cfg : NdlCfg) (eta : R)
     (ct ot : VecTable R) (σ τ : String → Nat)
-    (es es' : List (Event String String)) (hne : es ≠ [])
+    (es es' : List (Event String String)) (hne : es ≠ []) (hfile : FileEvents es)
     (hcfg : CfgOK cfg (countNames es).2.length)
     (hp : applyPolicyAll cfg.policy es = some es') (hs : ∀ e ∈ es', IsSingle e) (hfit : Fits32 es)
     (hohc : OneHotTable ct σ) (hoho : OneHotTable ot τ)
@@ -597,7 +612,7 @@ theorem wh_numpy_onehot_eq_ndl (cfg : NdlCfg) (eta : R)
       ndlCall Generated.pyMagic Generated.pyVersion cfg 1 eta eta 1 none es = .ok (wn, es.length) ∧
       (∀ o c dlo dlc, T o → S c → dlo ∈ ot.dims → ot.dims.idxOf dlo = τ o →
         dlc ∈ ct.dims → ct.dims.idxOf dlc = σ c → w.get dlo dlc = wn.get o c) := by
-  obtain ⟨w, wn, h1, h2, h3⟩ := wh_r2r_onehot_eq_ndl cfg eta eta eta 1 ct ot σ τ 1 (by decide) es es' hne hcfg hp hfit
+  obtain ⟨w, wn, h1, h2, h3⟩ := wh_r2r_onehot_eq_ndl cfg eta eta eta 1 ct ot σ τ 1 (by decide) es es' hne hfile hcfg hp hfit
     hohc hoho S T hSn hTn hinjc hinjo hS hT (single_outcomes_nodup es' hs)
   obtain ⟨r, g1, g2⟩ := whNumpyModel_eq_whModel cfg.policy eta eta eta 1 ct ot 1 (by decide) es es'
     (fun e he c hc => hSn c (hS e he c hc)) (fun e he o ho => hTn o (hT e he o ho)) hp hs
@@ -611,7 +626,7 @@ theorem wh_numpy_onehot_eq_ndl (cfg : NdlCfg) (eta : R)
     `wh_r2r_onehot_eq_ndl`. -/
 theorem dict_wh_onehot_eq_ndl (cfg : NdlCfg) (eta : R)
     (ct ot : VecTable R) (σ τ : String → Nat) (hnc : ct.dims.Nodup) (hno : ot.dims.Nodup)
-    (es es' : List (Event String String)) (hne : es ≠ [])
+    (es es' : List (Event String String)) (hne : es ≠ []) (hfile : FileEvents es)
     (hcfg : CfgOK cfg (countNames es).2.length)
     (hp : applyPolicyAll cfg.policy es = some es') (hs : ∀ e ∈ es', IsSingle e) (hfit : Fits32 es)
     (hohc : OneHotTable ct σ) (hoho : OneHotTable ot τ)
@@ -622,7 +637,7 @@ theorem dict_wh_onehot_eq_ndl (cfg : NdlCfg) (eta : R)
       ndlCall Generated.pyMagic Generated.pyVersion cfg 1 eta eta 1 none es = .ok (wn, es.length) ∧
       (∀ o c dlo dlc, T o → S c → dlo ∈ ot.dims → ot.dims.idxOf dlo = τ o →
         dlc ∈ ct.dims → ct.dims.idxOf dlc = σ c → wdAbs D dlo dlc = wn.get o c) := by
-  obtain ⟨w, wn, h1, h2, h3⟩ := wh_r2r_onehot_eq_ndl cfg eta eta eta 1 ct ot σ τ 1 (by decide) es es' hne hcfg hp hfit
+  obtain ⟨w, wn, h1, h2, h3⟩ := wh_r2r_onehot_eq_ndl cfg eta eta eta 1 ct ot σ τ 1 (by decide) es es' hne hfile hcfg hp hfit
     hohc hoho S T hSn hTn hinjc hinjo hS hT (single_outcomes_nodup es' hs)
   obtain ⟨D, r, g1, _, g3, g4, _⟩ := dictWhModel_eq_whModel cfg.policy eta eta eta 1 ct ot hnc hno 1 (by decide)
     es es' (fun e he c hc => hSn c (hS e he c hc)) (fun e he o ho => hTn o (hT e he o ho)) hp hs
@@ -649,7 +664,7 @@ example :
         exOutTable.dims.idxOf dlo = exTau o → dlc ∈ exTable.dims → exTable.dims.idxOf dlc = exSigma c →
         w.get dlo dlc = wn.get o c) :=
   wh_numpy_onehot_eq_ndl ⟨.dedup, .threading, 2, 2⟩ 2 exTable exOutTable exSigma exTau
-    exSingleEvents exSingleEvents' (by decide) (by decide +kernel) (by decide +kernel) (by decide +kernel)
+    exSingleEvents exSingleEvents' (by decide) (by decide) (by decide +kernel) (by decide +kernel) (by decide +kernel)
     ⟨by decide +kernel, by decide +kernel, by decide +kernel, by decide +kernel⟩
     onehot_table_example.1 (by unfold OneHotTable; decide +kernel)
     (· ∈ exTable.names) (· ∈ exOutTable.names) (fun _ h => h) (fun _ h => h) exSigma_inj exTau_inj
@@ -664,7 +679,7 @@ example :
         exOutTable.dims.idxOf dlo = exTau o → dlc ∈ exTable.dims → exTable.dims.idxOf dlc = exSigma c →
         wdAbs D dlo dlc = wn.get o c) :=
   dict_wh_onehot_eq_ndl ⟨.dedup, .openmp, 1, 2⟩ 2 exTable exOutTable exSigma exTau (by decide) (by decide)
-    exSingleEvents exSingleEvents' (by decide) (by decide +kernel) (by decide +kernel) (by decide +kernel)
+    exSingleEvents exSingleEvents' (by decide) (by decide) (by decide +kernel) (by decide +kernel) (by decide +kernel)
     ⟨by decide +kernel, by decide +kernel, by decide +kernel, by decide +kernel⟩
     onehot_table_example.1 (by unfold OneHotTable; decide +kernel)
     (· ∈ exTable.names) (· ∈ exOutTable.names) (fun _ h => h) (fun _ h => h) exSigma_inj exTau_inj
